@@ -11,6 +11,9 @@ Pure algebraic laws over observed calls of the real code (the only "model" is an
     mdft.band-complete      out >= n integers, Q = out/n per axis: dft2 is an isometry and idft2(dft2(a,Q,out),1,n) == a
     czt.band-complete       (same with czt2/iczt2; both orders for both engines)
     as.identity / as.undo / as.compose / as.tf-argument / tf.group-law   at Q == 1 (Q != 1 pads: energy only)
+    as.tf-reuse / repeat.same-objects   a transfer-function array, a field object, a Q container used again gives what it gave first,
+                            and the later use still satisfies the laws above (function and Wavefront form)
+    history.ops             band-complete pair judged after shifted traffic at the same sizes / a float32 warm-up / clears
 
 Chirp-Z failures are attributed, for the ledger key only, to the C01 chirp-Z defects by the same single-cause models
 that C01 uses (vp/props/c01.py::diagnose_czt): the C01 patches clear them.
@@ -22,13 +25,20 @@ import numpy as np
 from ..contracts import attach, detach_all
 from ..core import parity
 from ..refmodels.dft import origin_pad, pair, ref_dft
-from .c01 import HarnessError, _safe, axes_class, conf_bits, diagnose_czt, is_single, make_input, rtol_for, shape_kind
+from .c01 import (HarnessError, _safe, _copyarg, _same, _same_value, axes_class, conf_bits, diagnose_czt, is_single, make_input, rtol_for,
+                  shape_kind, relayout, LAYOUTS, make_container, container_values)
 from .c01 import KEY_AMBIG as C01_AMBIG, KEY_START as C01_START, KEY_SWAP as C01_SWAP
 
 RULE = ('cases are (shape, Q, dtype/precision) for the padded FFT pair, (shape, integer output shape >= shape) for the '
         'band-complete mdft/czt pairs, and (shape, wavelength, dx, z or z-pair, Q) for free space; shapes cover every parity '
-        'combination, square / non-square / 1xN; fields are seeded complex gaussian.  Non-trivial: the field has >= 2 '
-        'non-zero samples; distinct = distinct descriptor')
+        'combination, square / non-square / 1xN and extreme aspect ratios; fields are seeded complex gaussian (repeat cases also '
+        'real, integer and boolean images), in the configured precision or mixed (float32 data under precision 64 and vice versa).  '
+        'Repeat cases re-use argument objects: one transfer-function array for several propagations through the function and the '
+        'Wavefront form (tf=), one field object in six memory layouts for several calls, one Q / sample-count container (tuple, list, '
+        'float64 ndarray, numpy scalars) for both legs of the band-complete pair, twice.  Histories put shifted transforms with another '
+        'Q at the same array sizes (engine calls and the fixed-sampling wrappers), a float32 warm-up of the same pair and cache clears '
+        'before the band-complete pair that is judged; free-space laws are also judged after a float32 warm-up of the same routines.  '
+        'Non-trivial: the field has >= 2 non-zero samples; distinct = distinct descriptor')
 ASSUMPTIONS = [
     'origin-aligned zero padding puts input sample n//2 on output sample N//2 (own placement, not prysm.pad2d)',
     'energy = sum |field|^2; relative tolerance 1e-10 (float64) / 1e-3 (float32); field comparisons 1e-9 / 1e-3 of max|reference| (band-complete pairs: of ||a||_2, '
@@ -38,9 +48,13 @@ ASSUMPTIONS = [
     'group laws of free space are checked at Q == 1 only (Q != 1 pads the array, so only energy is defined)',
     'the sign / physical correctness of the free-space kernel is not part of this property (all four laws hold for its conjugate)',
     'chirp-Z failures are attributed to the C01 defects with the textbook DFT (vp/refmodels/dft.py) -- for the key only',
+    'contracts evaluate the laws on the argument values before the call (pre-hook snapshots); results are copied as soon as they are '
+    'returned (a routine may hand back memory it shares with an argument); the routines are deterministic, so a later call with the '
+    'same argument objects must reproduce the first to 10 eps',
+    'a mixed-precision case is judged at the float32 tolerances',
 ]
 REQUIRED = ['fft.energy', 'fft.roundtrip', 'mdft.band-complete', 'czt.band-complete', 'as.energy', 'tf.unit-modulus',
-            'as.identity', 'as.undo', 'as.compose', 'as.tf-argument', 'tf.group-law']
+            'as.identity', 'as.undo', 'as.compose', 'as.tf-argument', 'tf.group-law', 'as.tf-reuse', 'repeat.same-objects', 'history.ops']
 
 CTX = None
 CUR = {'desc': None}
@@ -102,19 +116,34 @@ def energy_close(monitor, e_out, e_in, key, what, desc, single):
 
 
 # ------------------------------------------------------------------------------------------ contracts
-def _snap0(args, kwargs):
-    x = args[0] if args else (kwargs.get('wavefunction') if 'wavefunction' in kwargs else kwargs.get('field'))
-    return np.array(x, copy=True) if isinstance(x, np.ndarray) else x
+def _snap(names):
+    """pre-hook: the values of all arguments before the call (a routine that writes into a caller's array -- the field, a
+    transfer function passed with tf= -- must not be able to change what the laws are evaluated on)."""
+    def pre(args, kwargs):
+        a = dict(zip(names, args))
+        a.update(kwargs)
+        return {k: _copyarg(v) for k, v in a.items()}
+    return pre
+
+
+def _note_mutation(fn, args, kwargs, names, snap):
+    now = dict(zip(names, args))
+    now.update(kwargs)
+    for k, v in snap.items():
+        if isinstance(v, np.ndarray) and k in now and not _same_value(now[k], v):
+            CTX.event(f'argument-mutated-in-place:{fn}:{k}')      # evidence only; the repeat laws judge the later call
 
 
 def fft_post(fn):
     @_safe
     def post(token, args, kwargs, result):
-        a = dict(zip(['wavefunction', 'Q'], args))
-        a.update(kwargs)
-        ary, Q = token, a['Q']
-        if not isinstance(ary, np.ndarray) or ary.ndim != 2 or ary.dtype.kind not in 'fc':
+        a = dict(token)
+        _note_mutation(fn, args, kwargs, ['wavefunction', 'Q'], token)
+        ary, Q = a.get('wavefunction'), a['Q']
+        if not isinstance(ary, np.ndarray) or ary.ndim != 2 or ary.dtype.kind not in 'fciub':
             return
+        if ary.dtype.kind in 'iub':
+            ary = ary.astype(np.float64)          # an integer / boolean image is a real field
         try:
             Qf = float(Q)
         except Exception:
@@ -148,9 +177,9 @@ def _unit_modulus(tf, single):
 
 @_safe
 def as_post(token, args, kwargs, result):
-    a = dict(zip(['field', 'wvl', 'dx', 'z', 'Q', 'tf'], args))
-    a.update(kwargs)
-    field = token
+    a = dict(token)                                # every argument as it was before the call
+    _note_mutation('angular_spectrum', args, kwargs, ['field', 'wvl', 'dx', 'z', 'Q', 'tf'], token)
+    field = a.get('field')
     if not isinstance(field, np.ndarray) or field.ndim != 2 or field.dtype.kind not in 'fc':
         return
     tf = a.get('tf', None)
@@ -206,10 +235,17 @@ def tf_post(token, args, kwargs, result):
 
 def install():
     from prysm import propagation
-    attach(propagation, 'focus', pre=_snap0, post=fft_post('focus'))
-    attach(propagation, 'unfocus', pre=_snap0, post=fft_post('unfocus'))
-    attach(propagation, 'angular_spectrum', pre=_snap0, post=as_post)
+    attach(propagation, 'focus', pre=_snap(['wavefunction', 'Q']), post=fft_post('focus'))
+    attach(propagation, 'unfocus', pre=_snap(['wavefunction', 'Q']), post=fft_post('unfocus'))
+    attach(propagation, 'angular_spectrum', pre=_snap(['field', 'wvl', 'dx', 'z', 'Q', 'tf']), post=as_post)
     attach(propagation, 'angular_spectrum_transfer_function', post=tf_post)
+
+
+def install_monitors(ctx):
+    """Attach the contracts for the repository's own test traffic (vp/pytest_monitors.py)."""
+    global CTX
+    CTX = ctx
+    install()
 
 
 # ------------------------------------------------------------------------------------------ workloads
@@ -226,16 +262,18 @@ def shapes_upto(n):
 def wl_fft_pair(ctx, rng):
     from prysm import propagation
     from ..util import precision
-    Qs = [1, 2, 3, 4, 1.5, 2.5]
-    shapes = shapes_upto(9) + [(1, 12), (13, 1), (2, 16), (16, 3)]
+    Qs = [1, 2, 3, 4, 1.5, 2.5] + ctx.pick([], [1.25, 5, 8])
+    shapes = shapes_upto(ctx.pick(9, 24)) + [(1, 12), (13, 1), (2, 16), (16, 3), (1, 64), (96, 2), (3, 128)]
     if not ctx.quick:
-        shapes += [(int(a), int(b)) for a, b in np.random.default_rng([ctx.seed, 77]).integers(10, 49, (120, 2))]
+        shapes += [(int(a), int(b)) for a, b in np.random.default_rng([ctx.seed, 77]).integers(10, 161, (4000, 2))]
     k = -1
     for (m, n) in shapes:
         for Q in Qs:
             k += 1
             if not ctx.mine(k):
                 continue
+            if max(m, n) * Q > 640:
+                continue                      # keep the padded array below 640 samples per axis
             bits = 32 if (k // ctx.nshards) % 5 == 4 else 64
             seed = ctx.subseed(rng)
             a = make_input((m, n), True, seed, bits=bits)
@@ -269,16 +307,20 @@ def wl_fft_pair(ctx, rng):
 C01_CAUSE_KEY = {'swap': C01_SWAP, 'start': C01_START, 'ambiguous': C01_AMBIG}
 
 
-def band_complete(ctx, engine, a, n, out, order, desc, single):
-    """order 'fwd-inv': F = fwd(a,Q,out); back = inv(F,1,n).  order 'inv-fwd': the other way round."""
+def band_complete(ctx, engine, a, n, out, order, desc, single, Qarg=None, outarg=None, a_ref=None):
+    """order 'fwd-inv': F = fwd(a,Q,out); back = inv(F,1,n).  order 'inv-fwd': the other way round.
+    Qarg / outarg: caller-owned container objects for Q and the output sample counts (re-used by the caller)."""
     from prysm import fttools
     ex = fttools.mdft if engine == 'mdft' else fttools.czt
     f_fwd, f_inv = (ex.dft2, ex.idft2) if engine == 'mdft' else (ex.czt2, ex.iczt2)
     first, second = (f_fwd, f_inv) if order == 'fwd-inv' else (f_inv, f_fwd)
     Q = (out[0] / n[0], out[1] / n[1])
-    Qarg = Q[0] if (Q[0] == Q[1] and desc.get('k', 0) % 2) else Q
-    F = first(a, Qarg, out)
+    if Qarg is None:
+        Qarg = Q[0] if (Q[0] == Q[1] and desc.get('k', 0) % 2) else Q
+    F = first(a, Qarg, out if outarg is None else outarg)
     back = second(F, 1, n)
+    if a_ref is not None:
+        a = a_ref                     # judge against the values the caller put in, not against what the array holds now
     mon = f'{engine}.band-complete'
     CTX.observe(mon)
     e_in, e_F = energy(a), energy(F)
@@ -344,8 +386,8 @@ def band_complete(ctx, engine, a, n, out, order, desc, single):
 def wl_band_complete(ctx, rng):
     from prysm import fttools
     from ..util import precision
-    nmax = ctx.pick(7, 10)
-    grow = ctx.pick(6, 10)
+    nmax = ctx.pick(7, 14)
+    grow = ctx.pick(6, 14)
     cases = []
     for (n0, n1) in shapes_upto(nmax):
         for d0 in range(0, grow + 1):
@@ -354,9 +396,10 @@ def wl_band_complete(ctx, rng):
     cases.sort(key=lambda c: (c[1][0] * c[1][1], c))
     ctx.note('band_complete_grid', f'all n in [1..{nmax}]^2 x out = n + d, d in [0..{grow}]^2, both engines, both orders')
     if not ctx.quick:
-        extra = np.random.default_rng([ctx.seed, 99]).integers(10, 41, (60, 2))
+        extra = np.random.default_rng([ctx.seed, 99]).integers(10, 97, (24000, 2))
+        g2 = np.random.default_rng([ctx.seed, 98])          # the same list on every shard
         for (n0, n1) in extra:
-            d0, d1 = (int(v) for v in rng.integers(0, 30, 2))
+            d0, d1 = (int(v) for v in g2.integers(0, 65, 2))
             cases.append(((int(n0), int(n1)), (int(n0) + d0, int(n1) + d1)))
     k = -1
     for (n, out) in cases:
@@ -365,6 +408,9 @@ def wl_band_complete(ctx, rng):
                 k += 1
                 if not ctx.mine(k):
                     continue
+                if (k // ctx.nshards) % 256 == 255:       # bound the memory held by the shared caches
+                    fttools.mdft.clear()
+                    fttools.czt.clear()
                 bits = 32 if (k // ctx.nshards) % 7 == 6 else 64
                 seed = ctx.subseed(rng)
                 a = make_input(n, True, seed, bits=bits)
@@ -393,9 +439,9 @@ def tf_phase(shape, wvl, dx, z):
 def wl_free_space(ctx, rng):
     from prysm import propagation
     from ..util import precision
-    shapes = shapes_upto(ctx.pick(7, 9)) + [(1, 10), (11, 1), (16, 16), (12, 20), (21, 8)]
+    shapes = shapes_upto(ctx.pick(7, 16)) + [(1, 10), (11, 1), (16, 16), (12, 20), (21, 8), (2, 64), (96, 3)]
     if not ctx.quick:
-        shapes += [(int(a), int(b)) for a, b in np.random.default_rng([ctx.seed, 5]).integers(10, 49, (150, 2))]
+        shapes += [(int(a), int(b)) for a, b in np.random.default_rng([ctx.seed, 5]).integers(10, 129, (2500, 2))]
     wvls = [0.3, 0.55, 0.6328, 1.55, 12.0]
     dxs = [1e-3, 0.01, 0.1, 1.0]
     zs = [0.0, 1e-9, -1e-9, 1.0, -1.0, 1e3, -1e3, 0.37, -25.0]
@@ -413,13 +459,22 @@ def wl_free_space(ctx, rng):
             z2 = zs[int(rng.integers(len(zs)))] if rng.random() < 0.5 else float(np.round(rng.uniform(-50, 50), 3))
             Qpad = [2, 3, 1.5][int(rng.integers(3))]
             seed = ctx.subseed(rng)
-            a = make_input((m, n), True, seed, bits=bits)
+            dbits = bits if (k // ctx.nshards) % 6 else (96 - bits)          # mixed: data of the other precision
+            warm = bits == 64 and dbits == 64 and (k // ctx.nshards) % 5 == 2      # float32 warm-up first, then judge float64 at full tolerance
+            a = make_input((m, n), True, seed, bits=dbits)
             via = 'Wavefront' if (k // ctx.nshards) % 2 else 'function'
-            desc = {'wl': 'free-space', 'in': (m, n), 'wvl': wvl, 'dx': dx, 'z1': z1, 'z2': z2, 'Qpad': Qpad, 'bits': bits, 'via': via,
-                    'seed': seed, 'class': f'as:{shape_kind((m, n))}:{parity(m)}{parity(n)}:f{bits}:{via}'}
+            desc = {'wl': 'free-space', 'in': (m, n), 'wvl': wvl, 'dx': dx, 'z1': z1, 'z2': z2, 'Qpad': Qpad, 'bits': bits, 'data_bits': dbits,
+                    'via': via, 'f32_warmup': warm, 'seed': seed,
+                    'class': f'as:{shape_kind((m, n))}:{parity(m)}{parity(n)}:p{bits}/d{dbits}:{via}{":after-f32-warmup" if warm else ""}'}
             ctx.case(desc, nontrivial=nontrivial(a))
             CUR['desc'] = desc
-            single = bits == 32
+            single = bits == 32 or dbits == 32
+            if warm:
+                with precision(32), ctx.guard('C02/free-space', desc):
+                    a32 = a.astype(np.complex64)
+                    propagation.angular_spectrum_transfer_function((m, n), wvl, dx, z1)
+                    propagation.angular_spectrum(a32, wvl, dx, z1, Q=1)
+                    propagation.Wavefront(a32, wvl, dx).free_space(dz=z2, Q=Qpad)
             eps = float(np.finfo(np.float32 if single else np.float64).eps)
             try:
                 with precision(bits), ctx.guard('C02/free-space', desc):
@@ -466,6 +521,315 @@ def wl_free_space(ctx, rng):
                 CUR['desc'] = None
 
 
+# ---- class A: repeat / aliasing ----------------------------------------------------------------------
+def _mutated(objs, snaps):
+    return [k for k in objs if isinstance(snaps[k], (np.ndarray, list)) and not _same_value(objs[k], snaps[k])]
+
+
+def same_objects(monitor, later, first, key, what, desc, objs, snaps, single):
+    """A later call with the same argument objects must reproduce the first (deterministic routines: 10 eps)."""
+    CTX.observe(monitor)
+    later, first = np.asarray(later), np.asarray(first)
+    ok = _same(later, first, 10) if later.dtype == first.dtype else field_ok(later, first, 1e-3 if single else 1e-12)
+    if not ok:
+        mut = _mutated(objs, snaps)
+        lab = '+'.join(mut) if mut else 'no-argument(state-elsewhere)'
+        CTX.violation(f'{key}/mutated:{lab}', what + f' (argument objects whose value changed: {mut or "none"})', desc,
+                      max_abs_diff=(float(np.max(np.abs(later - first))) if later.shape == first.shape else None))
+    return ok
+
+
+def field_ok(got, ref, rtol):
+    got, ref = np.asarray(got), np.asarray(ref)
+    if got.shape != ref.shape or not np.isfinite(got).all():
+        return False
+    return (float(np.max(np.abs(got - ref))) if got.size else 0.0) <= rtol * (float(np.max(np.abs(ref))) if ref.size else 0.0)
+
+
+def moderate_z(rng, shape, wvl, dx, eps):
+    """A distance whose transfer-function phase keeps the additivity law well conditioned on this grid."""
+    for _ in range(20):
+        z = float(np.round(rng.uniform(-50, 50), 3)) or 1.0
+        if COND_MULT * eps * 3 * tf_phase(shape, wvl, dx, z) <= 1e-4:
+            return z
+        z = z / 50
+        if COND_MULT * eps * 3 * tf_phase(shape, wvl, dx, z) <= 1e-4:
+            return z
+    return 1e-6
+
+
+def wl_tf_reuse(ctx, rng):
+    """Class A on free space: a precomputed transfer function passed with tf= is *re-used* (that is what the keyword is for):
+    the same tf array for a second and third propagation, through the function and the Wavefront.free_space form, two
+    steps of z/2 with one tf object, tf(z) then tf(-z) and then both once more.  Every law is judged on the later use."""
+    from prysm import propagation
+    from ..util import precision
+    shapes = shapes_upto(ctx.pick(5, 16)) + [(1, 10), (11, 1), (16, 16), (12, 20), (21, 8), (2, 64), (48, 3)]
+    if not ctx.quick:
+        shapes += [(int(a), int(b)) for a, b in np.random.default_rng([ctx.seed, 6]).integers(9, 129, (2500, 2))]
+    wvls = [0.3, 0.55, 0.6328, 1.55, 12.0]
+    dxs = [1e-3, 0.01, 0.1, 1.0]
+    reps = ctx.pick(4, 12)
+    k = -1
+    for (m, n) in shapes:
+        for rep in range(reps):
+            k += 1
+            if not ctx.mine(k):
+                continue
+            bits = 32 if (k // ctx.nshards) % 5 == 4 else 64
+            dbits = bits if (k // ctx.nshards) % 7 else (96 - bits)
+            single = bits == 32 or dbits == 32
+            eps = float(np.finfo(np.float32 if single else np.float64).eps)
+            wvl = wvls[int(rng.integers(len(wvls)))]
+            dx = dxs[int(rng.integers(len(dxs)))]
+            z = moderate_z(rng, (m, n), wvl, dx, eps)
+            seed = ctx.subseed(rng)
+            lay_a = LAYOUTS[int(rng.integers(len(LAYOUTS)))]
+            lay_tf = ('C', 'C', 'F', 'strided', 'T-view')[int(rng.integers(5))]
+            first_form = ('function', 'Wavefront')[int(rng.integers(2))]
+            desc = {'wl': 'tf-reuse', 'in': (m, n), 'wvl': wvl, 'dx': dx, 'z': z, 'bits': bits, 'data_bits': dbits, 'field_layout': lay_a,
+                    'tf_layout': lay_tf, 'first_form': first_form, 'seed': seed,
+                    'class': f'tf-reuse:{shape_kind((m, n))}:{parity(m)}{parity(n)}:p{bits}/d{dbits}:{lay_a}/{lay_tf}:{first_form}-first'}
+            a0 = make_input((m, n), True, seed, bits=dbits)
+            ctx.case(desc, nontrivial=nontrivial(a0))
+            CUR['desc'] = desc
+            sk = shape_kind((m, n))
+            try:
+                with precision(bits), ctx.guard('C02/free-space/tf-reused', desc):
+                    a = relayout(a0, lay_a)
+                    tf = relayout(propagation.angular_spectrum_transfer_function((m, n), wvl, dx, z), lay_tf)
+                    tfm = relayout(propagation.angular_spectrum_transfer_function((m, n), wvl, dx, -z), lay_tf)
+                    th = relayout(propagation.angular_spectrum_transfer_function((m, n), wvl, dx, z / 2), lay_tf)
+                    objs = {'field': a, 'tf': tf, 'tf(-z)': tfm, 'tf(z/2)': th}
+                    snaps = {k_: _copyarg(v) for k_, v in objs.items()}
+
+                    # results are copied at once: a routine may hand back memory it shares with an argument (and rewrite it later)
+                    def F(f, t):
+                        return np.array(propagation.angular_spectrum(f, wvl, dx, float('nan'), Q=1, tf=t), copy=True)
+
+                    def W(f, t):
+                        return np.array(propagation.Wavefront(f, wvl, dx).free_space(tf=t).data, copy=True)
+                    A, B = (F, W) if first_form == 'function' else (W, F)
+                    direct = propagation.angular_spectrum(np.array(a0, copy=True), wvl, dx, z, Q=1)
+                    r1 = A(a, tf)
+                    key = 'C02/free-space/tf-reused'
+                    held = True
+                    for name, r in (('second use, same form', A(a, tf)), ('third use, other form', B(a, tf)), ('fourth use', A(a, tf))):
+                        if not same_objects('as.tf-reuse', r, r1, key + '/later-use-of-the-same-tf-array-differs',
+                                            f'angular_spectrum / Wavefront.free_space with tf=: the {name} of the same transfer-function array '
+                                            'returns something else than the first', desc, objs, snaps, single):
+                            held = False
+                            break
+                    if not held:
+                        continue                     # the laws below would only restate the same defect under other keys
+                    # the later use must still be the propagation by z
+                    rl = B(a, tf)
+                    field_close('as.tf-argument', rl, direct, f'C02/free-space/tf-argument!=direct/{sk}',
+                                'angular_spectrum(tf=transfer_function(z)) differs from angular_spectrum(z) [tf array used before]', desc, single,
+                                rtol64=1e-12, rtol32=1e-5)
+                    # undo with two re-used objects, twice
+                    for rnd in (1, 2):
+                        back = A(B(a, tf), tfm)
+                        field_close('as.undo', back, snaps['field'], f'C02/free-space/z-then-minus-z/{sk}',
+                                    f'tf(z) then tf(-z) does not return the field [round {rnd} with the same two tf arrays]', desc, single,
+                                    rtol64=1e-10, rtol32=1e-3)
+                    # two steps of z/2 with one tf object = one step of z
+                    cond = COND_MULT * eps * 3 * tf_phase((m, n), wvl, dx, z)
+                    two = B(A(a, th), th)
+                    field_close('as.compose', two, direct, f'C02/free-space/z1-then-z2!=z1+z2/{sk}',
+                                'two steps of z/2 with one transfer-function array differ from one step of z', desc, single,
+                                rtol64=1e-10, rtol32=1e-3, extra_rtol=cond)
+            finally:
+                CUR['desc'] = None
+
+
+def wl_repeat_fields(ctx, rng):
+    """Class A on the data arrays and Q containers: the same field object (six memory layouts, also integer / boolean images)
+    through focus / unfocus / angular_spectrum twice, the round-trip laws judged on the *later* use; the band-complete pair run
+    twice with the same Q / sample-count objects (tuple, list, float64 ndarray, numpy scalars)."""
+    from prysm import propagation, fttools
+    from ..util import precision
+    n_cases = ctx.share(ctx.pick(400, 200000))
+    Qs = [1, 2, 3, 1.5, 2.5, 1.25, 8]
+    for i in range(n_cases):
+        if i % 512 == 511:
+            fttools.mdft.clear()
+            fttools.czt.clear()
+        route = ('fft', 'fft', 'as', 'band')[int(rng.integers(4))]
+        bits = 32 if rng.random() < 0.2 else 64
+        dbits = bits if rng.random() < 0.8 else (96 - bits)
+        single = bits == 32 or dbits == 32
+        lay = LAYOUTS[int(rng.integers(len(LAYOUTS)))]
+        m, n = (int(v) for v in rng.integers(1, ctx.pick(10, 33), 2))
+        if rng.random() < 0.15:
+            m, n = [(1, 64), (96, 2), (3, 128), (128, 1), (2, 2)][int(rng.integers(5))]
+        seed = ctx.subseed(rng)
+        if route == 'fft':
+            Q = Qs[int(rng.integers(len(Qs)))]
+            if m * n * Q * Q > 40000:
+                Q = 2
+            dk = ('complex', 'complex', 'real', 'int', 'bool')[int(rng.integers(5))]
+            a0 = make_input((m, n), dk == 'complex', seed, bits=dbits)
+            if dk == 'int':
+                a0 = np.random.default_rng(seed).integers(-3, 4, (m, n))
+            elif dk == 'bool':
+                a0 = np.random.default_rng(seed).random((m, n)) < 0.6
+            out = (math.ceil(m * Q), math.ceil(n * Q))
+            fwd = bool(rng.integers(2))
+            desc = {'wl': 'repeat', 'route': 'fft', 'in': (m, n), 'Q': Q, 'layout': lay, 'field_dtype': str(a0.dtype), 'fwd': fwd, 'bits': bits, 'seed': seed,
+                    'class': f'repeat:fft:{"focus" if fwd else "unfocus"}:{shape_kind((m, n))}:{qclass(Q)}:{lay}:{dk}:p{bits}/d{dbits}'}
+            ctx.case(desc, nontrivial=int(np.count_nonzero(a0)) >= 2)
+            if not np.any(a0):
+                continue
+            CUR['desc'] = desc
+            try:
+                with precision(bits), ctx.guard('C02/fft-pair', desc):
+                    a = relayout(a0, lay)
+                    objs = {'field': a}
+                    snaps = {'field': np.array(a0, copy=True)}
+                    f1, f2 = (propagation.focus, propagation.unfocus) if fwd else (propagation.unfocus, propagation.focus)
+                    o1 = np.array(f1(a, Q), copy=True)      # copied at once: the result may share memory with an argument
+                    o2 = f1(a, Q)
+                    name = 'focus' if fwd else 'unfocus'
+                    same_objects('repeat.same-objects', o2, o1, f'C02/repeat/{name}/second-call-with-the-same-array-differs',
+                                 f'propagation.{name} called twice with the same array object returns two different results', desc, objs, snaps,
+                                 single)
+                    ref = origin_pad(a0.astype(np.complex128 if a0.dtype.kind != 'c' else a0.dtype), out)
+                    back = f2(f1(a, Q), 1)
+                    cls = f'{qclass(Q)}/pad:{axes_class((m, n), out)}'
+                    field_close('fft.roundtrip', back, ref, f'C02/fft-roundtrip/{"unfocus(focus)" if fwd else "focus(unfocus)"}/{cls}',
+                                'the round trip through the padded FFT pair is not the origin-aligned zero padding of the field [third use of the same array object]',
+                                desc, single and a0.dtype.kind in 'fc')
+            finally:
+                CUR['desc'] = None
+        elif route == 'as':
+            eps = float(np.finfo(np.float32 if single else np.float64).eps)
+            wvl = [0.3, 0.55, 1.55, 12.0][int(rng.integers(4))]
+            dx = [1e-3, 0.01, 0.1, 1.0][int(rng.integers(4))]
+            z = moderate_z(rng, (m, n), wvl, dx, eps)
+            a0 = make_input((m, n), True, seed, bits=dbits)
+            via = ('function', 'Wavefront')[int(rng.integers(2))]
+            desc = {'wl': 'repeat', 'route': 'as', 'in': (m, n), 'wvl': wvl, 'dx': dx, 'z': z, 'layout': lay, 'via': via, 'bits': bits, 'data_bits': dbits,
+                    'seed': seed, 'class': f'repeat:as:{shape_kind((m, n))}:{lay}:{via}:p{bits}/d{dbits}'}
+            ctx.case(desc, nontrivial=nontrivial(a0))
+            CUR['desc'] = desc
+            try:
+                with precision(bits), ctx.guard('C02/free-space', desc):
+                    a = relayout(a0, lay)
+                    objs = {'field': a}
+                    snaps = {'field': np.array(a0, copy=True)}
+                    if via == 'function':
+                        def P(f, zz, Q=1):
+                            return np.array(propagation.angular_spectrum(f, wvl, dx, zz, Q=Q), copy=True)
+                    else:
+                        def P(f, zz, Q=1):
+                            return np.array(propagation.Wavefront(f, wvl, dx).free_space(dz=zz, Q=Q).data, copy=True)
+                    o1 = P(a, z)
+                    P(a, z, Q=2)                      # padded use of the same object in between (energy contract)
+                    o2 = P(a, z)
+                    same_objects('repeat.same-objects', o2, o1, 'C02/repeat/angular_spectrum/second-call-with-the-same-array-differs',
+                                 'angular_spectrum called twice with the same field object returns two different results', desc, objs, snaps, single)
+                    sk = shape_kind((m, n))
+                    field_close('as.undo', P(P(a, z), -z), snaps['field'], f'C02/free-space/z-then-minus-z/{sk}',
+                                'propagating by z and then by -z does not return the field [fourth use of the same array object]', desc, single,
+                                rtol64=1e-10, rtol32=1e-3)
+                    field_close('as.identity', P(a, 0.0), snaps['field'], f'C02/free-space/z=0-not-identity/{sk}',
+                                'free-space propagation by z = 0 is not the identity [fifth use of the same array object]', desc, single,
+                                rtol64=1e-10, rtol32=1e-3)
+            finally:
+                CUR['desc'] = None
+        else:
+            m, n = min(m, ctx.pick(12, 24)), min(n, ctx.pick(12, 24))
+            d0, d1 = (int(v) for v in rng.integers(0, ctx.pick(8, 20), 2))
+            out = (m + d0, n + d1)
+            engine = ('mdft', 'czt')[int(rng.integers(2))]
+            order = ('fwd-inv', 'inv-fwd')[int(rng.integers(2))]
+            qkind = ('tuple', 'list', 'nd-f64', 'np-scalars')[int(rng.integers(4))]
+            okind = ('tuple', 'np-ints')[int(rng.integers(2))]
+            a0 = make_input((m, n), True, seed, bits=dbits)
+            desc = {'wl': 'repeat', 'route': 'band', 'engine': engine, 'order': order, 'n': (m, n), 'out': out, 'layout': lay, 'Q_container': qkind,
+                    'out_container': okind, 'bits': bits, 'data_bits': dbits, 'seed': seed, 'k': 0,
+                    'class': f'repeat:band:{engine}:{order}:{shape_kind((m, n))}:Q={qkind}:out={okind}:{lay}:p{bits}/d{dbits}'}
+            ctx.case(desc, nontrivial=nontrivial(a0))
+            CUR['desc'] = desc
+            try:
+                with precision(bits), ctx.guard(f'C02/{engine}/band-complete', desc):
+                    a = relayout(a0, lay)
+                    Qc = make_container(qkind, (out[0] / m, out[1] / n))
+                    oc = (np.int64(out[0]), np.int32(out[1])) if okind == 'np-ints' else out
+                    for rnd in (1, 2):                 # the second round re-uses every object; both rounds are judged
+                        band_complete(ctx, engine, a, (m, n), out, order, desc, single, Qarg=Qc, outarg=oc, a_ref=a0)
+            finally:
+                CUR['desc'] = None
+    fttools.mdft.clear()
+    fttools.czt.clear()
+
+
+# ---- class B / C: histories on the shared executors, 32 -> 64 switch --------------------------------------
+def wl_band_history(ctx, rng):
+    """The band-complete pair after other traffic at the *same array sizes* on the shared executors: shifted transforms with
+    another Q (engine calls and focus_/unfocus_fixed_sampling), a float32 warm-up of the very same pair, cache clears.
+    The later pair is judged by the isometry / left-inverse laws at the full float64 tolerance."""
+    from prysm import fttools, propagation
+    from prysm.conf import config
+    n_cases = ctx.share(ctx.pick(300, 160000))
+    for _ in range(n_cases):
+        m, n = (int(v) for v in rng.integers(2, ctx.pick(9, 24), 2))
+        if rng.random() < 0.4:
+            n = m
+        d0, d1 = (int(v) for v in rng.integers(0, ctx.pick(8, 20), 2))
+        if m == n and rng.random() < 0.5:
+            d1 = d0
+        out = (m + d0, n + d1)
+        engine = ('mdft', 'czt')[int(rng.integers(2))]
+        order = ('fwd-inv', 'inv-fwd')[int(rng.integers(2))]
+        L = int(rng.integers(1, ctx.pick(4, 9)))
+        ops = []
+        for _j in range(L):
+            ops.append((('shifted-engine', 'shifted-wrapper', 'p32-warmup', 'inverse-shifted', 'clear-other')[int(rng.integers(5))],
+                        ('mdft', 'czt')[int(rng.integers(2))], round(float(rng.uniform(0.7, 3.5)), 3),
+                        (float(int(rng.integers(-3, 4)) or 1), round(float(rng.uniform(-2, 2)), 2))))
+        seed = ctx.subseed(rng)
+        desc = {'wl': 'band-history', 'engine': engine, 'order': order, 'n': (m, n), 'out': out, 'ops': [list(o) for o in ops], 'seed': seed, 'k': 0,
+                'class': f'band-history:{engine}:{order}:{shape_kind((m, n))}:{"+".join(sorted(set(o[0] for o in ops)))}'}
+        a = make_input((m, n), True, seed)
+        ctx.case(desc, nontrivial=nontrivial(a))
+        fttools.mdft.clear()
+        fttools.czt.clear()
+        config.precision = 64
+        CUR['desc'] = desc
+        try:
+            with ctx.guard(f'C02/{engine}/band-complete', desc):
+                for j, (op, eng, Qo, sh) in enumerate(ops):
+                    ctx.observe('history.ops')
+                    ex = fttools.mdft if eng == 'mdft' else fttools.czt
+                    b = make_input((m, n), True, seed + 1 + j)
+                    B = make_input(out, True, seed + 20 + j)
+                    if op == 'shifted-engine':
+                        (ex.dft2 if eng == 'mdft' else ex.czt2)(b, Qo, out, sh)
+                    elif op == 'inverse-shifted':
+                        (ex.idft2 if eng == 'mdft' else ex.iczt2)(B, Qo, (m, n), sh)
+                    elif op == 'shifted-wrapper':
+                        wvl, efl, dxi = 0.55, 100., 0.1
+                        dxo = wvl * efl / (m * dxi) / Qo
+                        propagation.focus_fixed_sampling(b, dxi, efl, wvl, dxo, out, shift=(sh[0] * dxo, sh[1] * dxo), method=eng)
+                        propagation.unfocus_fixed_sampling(B, dxo, efl, wvl, dxi, (m, n), shift=(sh[0] * dxi, 0.0), method=eng)
+                    elif op == 'p32-warmup':
+                        config.precision = 32
+                        try:
+                            band_complete(ctx, engine, make_input((m, n), True, seed, bits=32), (m, n), out, order, desc, True)
+                        finally:
+                            config.precision = 64
+                    else:
+                        (fttools.czt if engine == 'mdft' else fttools.mdft).clear()
+                band_complete(ctx, engine, a, (m, n), out, order, desc, False)
+        finally:
+            CUR['desc'] = None
+            config.precision = 64
+    fttools.mdft.clear()
+    fttools.czt.clear()
+
+
 def run(ctx):
     global CTX
     CTX = ctx
@@ -474,9 +838,20 @@ def run(ctx):
     old = conf_bits()
     install()
     try:
-        wl_fft_pair(ctx, ctx.rng('c02-fft'))
-        wl_band_complete(ctx, ctx.rng('c02-band'))
-        wl_free_space(ctx, ctx.rng('c02-as'))
+        import time
+        secs = {}
+
+        def timed(name, f, *a):
+            t = time.time()
+            f(*a)
+            secs[name] = round(time.time() - t, 1)
+        timed('fft-pair', wl_fft_pair, ctx, ctx.rng('c02-fft'))
+        timed('band-complete', wl_band_complete, ctx, ctx.rng('c02-band'))
+        timed('band-history', wl_band_history, ctx, ctx.rng('c02-band-hist'))
+        timed('free-space', wl_free_space, ctx, ctx.rng('c02-as'))
+        timed('tf-reuse', wl_tf_reuse, ctx, ctx.rng('c02-tf-reuse'))
+        timed('repeat-fields', wl_repeat_fields, ctx, ctx.rng('c02-repeat'))
+        ctx.note('workload_seconds(first shard)', secs)
         ctx.note('largest_error_over_tolerance_among_held_comparisons(first shard)', {k: float(f'{v:.2e}') for k, v in sorted(STATS.items())})
     finally:
         detach_all()
